@@ -152,6 +152,16 @@ type DocP struct {
 	*BaseT
 	Tail []string `json:"tail"`
 }
+// recursive and plain DEFINED POINTER types (reflect kind Pointer with a name)
+type PtrSelf *PtrSelf
+type PtrA *PtrB
+type PtrB *PtrA
+type PtrInt *int
+type PtrInner *Inner
+type HoldsPtrs struct {
+	I PtrInt   `json:"i"`
+	N PtrInner `json:"n,omitempty"`
+}
 type DescTag struct {
 	A int `json:"a" jsonschema:"the a"`
 }
@@ -171,6 +181,8 @@ var bank = map[string]reflect.Type{
 	"MyInt64": reflect.TypeFor[MyInt64](), "MyBool": reflect.TypeFor[MyBool](), "Empty": reflect.TypeFor[Empty](),
 	"Levels": reflect.TypeFor[Levels](), "Markers": reflect.TypeFor[Markers](),
 	"IDt": reflect.TypeFor[IDt](), "BaseT": reflect.TypeFor[BaseT](), "DocT": reflect.TypeFor[DocT](), "DocP": reflect.TypeFor[DocP](),
+	"PtrSelf": reflect.TypeFor[PtrSelf](), "PtrA": reflect.TypeFor[PtrA](), "PtrInt": reflect.TypeFor[PtrInt](),
+	"PtrInner": reflect.TypeFor[PtrInner](), "HoldsPtrs": reflect.TypeFor[HoldsPtrs](),
 	"Handler": reflect.TypeFor[Handler](), "IntKeyed": reflect.TypeFor[IntKeyed](), "MyChan": reflect.TypeFor[MyChan](),
 	"TwoHandlers": reflect.TypeFor[TwoHandlers](),
 }
